@@ -1,5 +1,6 @@
 import PhyVerif.Model.C15
 import PhyVerif.Spec.C15
+import PhyVerif.Lemmas.Np
 /-! Helper lemmas and full proofs for C15. Statements of the property theorems: `Props/C15.lean`. -/
 namespace PhyVerif.C15.Lemmas
 open PhyVerif PhyVerif.C15
@@ -168,37 +169,395 @@ theorem ccg_eq_byShift (hs : Sorted x) (hb : 0 < x.bin) : ccg x = upTo x x.n := 
   · omega
 
 
+/-! ### double-sum reindexing `b = a + s` -/
+
+theorem sum_map_add' {α : Type} (l : List α) (f g : α → Nat) :
+    (l.map fun a => f a + g a).sum = (l.map f).sum + (l.map g).sum := by
+  induction l with
+  | nil => rfl
+  | cons a l ih => simp only [List.map_cons, List.sum_cons, ih]; omega
+
+theorem countP_eq_sum {α : Type} (p : α → Bool) (l : List α) :
+    l.countP p = (l.map fun a => if p a then 1 else 0).sum := by
+  induction l with
+  | nil => rfl
+  | cons a l ih =>
+    rw [List.countP_cons, ih, List.map_cons, List.sum_cons]; omega
+
+/-- sum over shifts `s = s'+1`, then over first indices `a` with `a + s < n` -/
+def sumShift (n : Nat) (f : Nat → Nat → Nat) : Nat :=
+  ((List.range n).map fun s' => ((List.range (n - (s' + 1))).map fun a => f a (a + (s' + 1))).sum).sum
+
+/-- sum over second indices `b < n`, then over `a < b` -/
+def sumPair (n : Nat) (f : Nat → Nat → Nat) : Nat :=
+  ((List.range n).map fun b => ((List.range b).map fun a => f a b).sum).sum
+
+theorem sumShift_succ (n : Nat) (f : Nat → Nat → Nat) :
+    sumShift (n + 1) f =
+      ((List.range n).map fun s' => f 0 (s' + 1)).sum + sumShift n (fun a b => f (a + 1) (b + 1)) := by
+  unfold sumShift
+  rw [List.range_succ, List.map_append, List.sum_append]
+  have hlast : ([n].map fun s' =>
+      ((List.range (n + 1 - (s' + 1))).map fun a => f a (a + (s' + 1))).sum).sum = 0 := by
+    simp
+  rw [hlast, Nat.add_zero, ← sum_map_add']
+  congr 1
+  apply List.map_congr_left
+  intro s' hs'
+  rw [List.mem_range] at hs'
+  have e : n + 1 - (s' + 1) = (n - (s' + 1)) + 1 := by omega
+  rw [e, List.range_succ_eq_map, List.map_cons, List.sum_cons, List.map_map, Nat.zero_add]
+  congr 1
+  congr 1
+  apply List.map_congr_left
+  intro a _
+  simp only [Function.comp, Nat.succ_eq_add_one]
+  congr 1
+  omega
+
+theorem sumPair_succ (n : Nat) (f : Nat → Nat → Nat) :
+    sumPair (n + 1) f =
+      ((List.range n).map fun b => f 0 (b + 1)).sum + sumPair n (fun a b => f (a + 1) (b + 1)) := by
+  unfold sumPair
+  rw [List.range_succ_eq_map, List.map_cons, List.sum_cons, List.map_map, ← sum_map_add']
+  simp only [List.range_zero, List.map_nil, List.sum_nil, Nat.zero_add]
+  congr 1
+  apply List.map_congr_left
+  intro b _
+  simp only [Function.comp, Nat.succ_eq_add_one]
+  rw [List.range_succ_eq_map, List.map_cons, List.sum_cons, List.map_map]
+  rfl
+
+theorem sumShift_eq_sumPair : ∀ (n : Nat) (f : Nat → Nat → Nat), sumShift n f = sumPair n f := by
+  intro n
+  induction n with
+  | zero => intro f; rfl
+  | succ n ih => intro f; rw [sumShift_succ, sumPair_succ, ih]
+
+/-- the pair predicate of `pairCount` -/
+def Q (x : Inp) (i j : Nat) (k : Int) (a b : Nat) : Bool :=
+  x.cl a == i && x.cl b == j && ((x.t b - x.t a) / x.bin == k) && decide (k ≤ x.half)
+
+theorem upTo_succ_n (x : Inp) : upTo x (x.n + 1) = upTo x x.n := by
+  by_cases h : 1 ≤ x.n
+  · rw [upTo_succ x x.n h, E_nil_of_ge x x.n (Nat.le_refl _), List.append_nil]
+  · have : x.n = 0 := by omega
+    rw [this, upTo_zero]; exact upTo_one x
+
+theorem E_count (x : Inp) (i j : Nat) (k : Int) (s : Nat) :
+    (E x s).count (i, j, k) =
+      ((List.range (x.n - s)).map fun a => if Q x i j k a (a + s) then 1 else 0).sum := by
+  unfold E
+  rw [List.count_filterMap, countP_eq_sum]
+  apply congrArg
+  apply List.map_congr_left
+  intro a _
+  unfold Q lag
+  by_cases h : (x.t (a + s) - x.t a) / x.bin ≤ x.half
+  · by_cases hk : (x.t (a + s) - x.t a) / x.bin = k
+    · subst hk; simp [h]
+    · simp [h, hk]
+  · by_cases hk : (x.t (a + s) - x.t a) / x.bin = k
+    · subst hk; simp [h]
+    · simp [h, hk]
+
+theorem upTo_count (x : Inp) (i j : Nat) (k : Int) :
+    (upTo x x.n).count (i, j, k) = sumShift x.n (fun a b => if Q x i j k a b then 1 else 0) := by
+  rw [← upTo_succ_n]
+  unfold upTo sumShift
+  rw [Nat.add_sub_cancel, List.count_flatMap, List.range'_eq_map_range, List.map_map]
+  apply congrArg
+  apply List.map_congr_left
+  intro s' _
+  simp only [Function.comp]
+  rw [E_count, Nat.add_comm 1 s']
+
+theorem pairCount_eq (x : Inp) (i j : Nat) (k : Int) :
+    pairCount x i j k = sumPair x.n (fun a b => if Q x i j k a b then 1 else 0) := by
+  unfold pairCount pairs sumPair
+  rw [← List.countP_eq_length_filter, List.countP_flatMap]
+  apply congrArg
+  apply List.map_congr_left
+  intro b _
+  simp only [Function.comp]
+  rw [List.countP_map, countP_eq_sum]
+  rfl
+
 theorem ccg_eq_paircount (x : Inp) (hs : Sorted x) (hb : 0 < x.bin) (i j : Nat) (k : Int) :
     (ccg x).count (i, j, k) = pairCount x i j k := by
-  sorry
+  rw [ccg_eq_byShift x hs hb, upTo_count, pairCount_eq, sumShift_eq_sumPair]
+
+/-! ### list level -/
+theorem idxOf_eq_iff (ids : List Nat) (hnd : ids.Nodup) (c : Int) (h0 : 0 ≤ c) (hc : c.toNat ∈ ids)
+    (i : Nat) (hi : i < ids.length) :
+    ids.idxOf c.toNat = i ↔ c = Int.ofNat (ids.getD i 0) := by
+  have hlt : ids.idxOf c.toNat < ids.length := List.idxOf_lt_length_iff.mpr hc
+  have hget : ids[ids.idxOf c.toNat] = c.toNat := List.getElem_idxOf hlt
+  have hD : ids.getD i 0 = ids[i] := by simp [List.getD_eq_getElem?_getD, hi]
+  rw [hD]
+  constructor
+  · intro h
+    subst h
+    rw [hget]
+    simp only [Int.ofNat_eq_natCast]; omega
+  · intro h
+    have : c.toNat = ids[i] := by rw [h]; simp
+    rw [this]
+    exact hnd.idxOf_getElem i hi
+
+theorem cl_beq (sc : List Int) (ids : List Nat) (hdom : InDom sc ids) (a : Nat) (ha : a < sc.length)
+    (i : Nat) (hi : i < ids.length) :
+    (((sc.map fun c => ((ids.idxOf c.toNat : Nat) : Int)).getD a 0).toNat == i) =
+      (sc.getD a 0 == Int.ofNat (ids.getD i 0)) := by
+  have hmem : sc[a] ∈ sc := List.getElem_mem ha
+  have h := idxOf_eq_iff ids hdom.1 sc[a] (hdom.2 _ hmem).1 (hdom.2 _ hmem).2 i hi
+  have e1 : (sc.map fun c => ((ids.idxOf c.toNat : Nat) : Int)).getD a 0 = ((ids.idxOf sc[a].toNat : Nat) : Int) := by
+    simp [List.getD_eq_getElem?_getD, ha]
+  have e2 : sc.getD a 0 = sc[a] := by simp [List.getD_eq_getElem?_getD, ha]
+  rw [e1, e2, Int.toNat_natCast]
+  rw [Bool.eq_iff_iff]
+  simp only [beq_iff_eq]
+  exact h
+
+theorem mem_pairs (n : Nat) (p : Nat × Nat) (h : p ∈ pairs n) : p.1 < p.2 ∧ p.2 < n := by
+  unfold pairs at h
+  rw [List.mem_flatMap] at h
+  obtain ⟨b, hb, hp⟩ := h
+  rw [List.mem_map] at hp
+  obtain ⟨a, ha, rfl⟩ := hp
+  rw [List.mem_range] at hb ha
+  exact ⟨ha, hb⟩
+
+theorem sorted_of_pairwise (t : List Int) (h : t.Pairwise (· ≤ ·)) (cl : Nat → Nat) (bin half : Int) :
+    Sorted { t := fun a => t.getD a 0, cl := cl, n := t.length, bin := bin, half := half } := by
+  intro a b hab hb
+  simp only at hb ⊢
+  have ha : a < t.length := by omega
+  have e1 : t.getD a 0 = t[a] := by simp [List.getD_eq_getElem?_getD, ha]
+  have e2 : t.getD b 0 = t[b] := by simp [List.getD_eq_getElem?_getD, hb]
+  rw [e1, e2]
+  by_cases hEq : a = b
+  · subst hEq; exact Int.le_refl _
+  · exact (List.pairwise_iff_getElem.mp h) a b ha hb (by omega)
 
 theorem correlograms_eq_spec (t : List Int) (sc : List Int) (ids : List Nat) (bin : Int) (half : Nat)
     (hsorted : t.Pairwise (· ≤ ·)) (hb : 0 < bin) (hlen : sc.length = t.length)
     (hdom : InDom sc ids) :
     correlograms t sc ids bin half = some (specCcg t sc ids bin half) := by
-  sorry
+  unfold correlograms
+  rw [Np.Lemmas.indexOf_eq sc ids hdom.1 hdom.2]
+  simp only [Option.bind_eq_bind, Option.bind_some, Option.pure_def, Option.some.injEq]
+  unfold countArray specCcg
+  apply List.map_congr_left
+  intro i hi
+  apply List.map_congr_left
+  intro j hj
+  apply List.map_congr_left
+  intro k hk
+  rw [List.mem_range] at hi hj hk
+  rw [ccg_eq_paircount _ (sorted_of_pairwise t hsorted _ _ _) hb]
+  unfold pairCount
+  simp only
+  apply congrArg
+  apply List.filter_congr
+  intro p hp
+  have hp' := mem_pairs _ _ hp
+  rw [cl_beq sc ids hdom p.1 (by omega) i hi, cl_beq sc ids hdom p.2 (by omega) j hj]
+  have hk' : k ≤ half := by omega
+  simp [hk']
+
+
+theorem count_idx (sc : List Int) (ids : List Nat) (hdom : InDom sc ids) (i : Nat) (hi : i < ids.length) :
+    (sc.map fun c => ((ids.idxOf c.toNat : Nat) : Int)).count (Int.ofNat i) =
+      sc.count (Int.ofNat (ids.getD i 0)) := by
+  rw [List.count_eq_countP, List.count_eq_countP, List.countP_map]
+  apply List.countP_congr
+  intro c hc
+  have h := idxOf_eq_iff ids hdom.1 c (hdom.2 c hc).1 (hdom.2 c hc).2 i hi
+  simp only [Function.comp, beq_iff_eq, Int.ofNat_eq_natCast] at h ⊢
+  rw [← h]
+  omega
+
+theorem firing_outer (sc : List Int) (ids : List Nat) (hdom : InDom sc ids) :
+    firingCounts sc ids = some (specFiring sc ids) := by
+  unfold firingCounts
+  rw [Np.Lemmas.indexOf_eq sc ids hdom.1 hdom.2]
+  simp only [Option.bind_eq_bind, Option.bind_some, Option.pure_def, Option.some.injEq]
+  unfold specFiring
+  have hbc : ((List.range ids.length).map fun (i : Nat) =>
+      (sc.map fun c => ((ids.idxOf c.toNat : Nat) : Int)).count (Int.ofNat i)) =
+      ids.map fun c => sc.count (Int.ofNat c) := by
+    apply List.ext_getElem
+    · simp
+    · intro i h1 h2
+      rw [List.length_map, List.length_range] at h1
+      rw [List.getElem_map, List.getElem_map, List.getElem_range, count_idx sc ids hdom i h1]
+      simp [List.getD_eq_getElem?_getD, h1]
+  simp only [hbc]
+
+
+/-! ### symmetrisation -/
+
+def cell (c : List (List (List Nat))) (i j : Nat) : List Nat := (c.getD i []).getD j []
+
+theorem get3_eq_cell (c : List (List (List Nat))) (i j k : Nat) : get3 c i j k = (cell c i j).getD k 0 := rfl
+
+theorem getD_map_zipIdx {α β : Type} (l : List α) (f : α × Nat → β) (i : Nat) (d : β)
+    (h : i < l.length) : (l.zipIdx.map f).getD i d = f (l[i], i) := by
+  simp [List.getD_eq_getElem?_getD, h]
+
+theorem getD_eq_getElem' {α : Type} (l : List α) (i : Nat) (d : α) (h : i < l.length) :
+    l.getD i d = l[i] := by
+  simp [List.getD_eq_getElem?_getD, h]
+
+theorem mem_zipIdx_fst {α : Type} {l : List α} {p : α × Nat} (h : p ∈ l.zipIdx) :
+    p.1 ∈ l ∧ p.2 < l.length ∧ l.getD p.2 p.1 = p.1 := by
+  rw [List.mem_zipIdx_iff_getElem?] at h
+  obtain ⟨hlt, he⟩ := List.getElem?_eq_some_iff.mp h
+  refine ⟨?_, hlt, ?_⟩
+  · rw [← he]; exact List.getElem_mem hlt
+  · rw [getD_eq_getElem' l p.2 p.1 hlt, he]
+
+theorem shape_row_len {c : List (List (List Nat))} {nc m : Nat} (hc : Shape3 c nc m) {i : Nat}
+    (hi : i < nc) : (c.getD i []).length = nc := by
+  have hi' : i < c.length := by rw [hc.1]; exact hi
+  rw [getD_eq_getElem' c i [] hi']
+  exact (hc.2 _ (List.getElem_mem hi')).1
+
+theorem shape_cell_len {c : List (List (List Nat))} {nc m : Nat} (hc : Shape3 c nc m) {i j : Nat}
+    (hi : i < nc) (hj : j < nc) : (cell c i j).length = m := by
+  have hi' : i < c.length := by rw [hc.1]; exact hi
+  have hrow := hc.2 _ (List.getElem_mem hi')
+  unfold cell
+  rw [getD_eq_getElem' c i [] hi']
+  have hj' : j < c[i].length := by rw [hrow.1]; exact hj
+  rw [getD_eq_getElem' _ j [] hj']
+  exact hrow.2 _ (List.getElem_mem hj')
+
+/-- the centre-bin update on one cell -/
+def centreCell (c : List (List (List Nat))) (i j : Nat) (v : List Nat) : List Nat :=
+  match v with
+  | [] => []
+  | v0 :: rest => max v0 (get3 c j i 0) :: rest
+
+theorem centreCell_length (c : List (List (List Nat))) (i j : Nat) (v : List Nat) :
+    (centreCell c i j v).length = v.length := by
+  cases v <;> rfl
+
+theorem symCentre_eq (c : List (List (List Nat))) :
+    symCentre c = c.zipIdx.map fun p => p.1.zipIdx.map fun q => centreCell c p.2 q.2 q.1 := rfl
+
+theorem symmetrize_eq (c : List (List (List Nat))) :
+    symmetrize c = (symCentre c).zipIdx.map fun p => p.1.zipIdx.map fun q =>
+      (cell (symCentre c) q.2 p.2).tail.reverse ++ q.1 := rfl
+
+theorem symCentre_shape {c : List (List (List Nat))} {nc m : Nat} (hc : Shape3 c nc m) :
+    Shape3 (symCentre c) nc m := by
+  rw [symCentre_eq]
+  refine ⟨by rw [List.length_map, List.length_zipIdx]; exact hc.1, ?_⟩
+  intro row hrow
+  obtain ⟨p, hp, rfl⟩ := List.mem_map.mp hrow
+  have hp1 := hc.2 _ (mem_zipIdx_fst hp).1
+  refine ⟨by rw [List.length_map, List.length_zipIdx]; exact hp1.1, ?_⟩
+  intro v hv
+  obtain ⟨q, hq, rfl⟩ := List.mem_map.mp hv
+  rw [centreCell_length]
+  exact hp1.2 _ (mem_zipIdx_fst hq).1
+
+theorem cell_symCentre {c : List (List (List Nat))} {nc m : Nat} (hc : Shape3 c nc m) {i j : Nat}
+    (hi : i < nc) (hj : j < nc) : cell (symCentre c) i j = centreCell c i j (cell c i j) := by
+  have hi' : i < c.length := by rw [hc.1]; exact hi
+  have hj' : j < c[i].length := by rw [(hc.2 _ (List.getElem_mem hi')).1]; exact hj
+  unfold cell
+  rw [symCentre_eq, getD_map_zipIdx _ _ i [] hi']
+  simp only
+  rw [getD_map_zipIdx _ _ j [] hj', getD_eq_getElem' c i [] hi', getD_eq_getElem' _ j [] hj']
+
+theorem cell_symmetrize {c : List (List (List Nat))} {nc m : Nat} (hc : Shape3 c nc m) {i j : Nat}
+    (hi : i < nc) (hj : j < nc) :
+    cell (symmetrize c) i j = (cell (symCentre c) j i).tail.reverse ++ cell (symCentre c) i j := by
+  have hc' := symCentre_shape hc
+  have hi' : i < (symCentre c).length := by rw [hc'.1]; exact hi
+  have hj' : j < (symCentre c)[i].length := by rw [(hc'.2 _ (List.getElem_mem hi')).1]; exact hj
+  rw [symmetrize_eq]
+  unfold cell
+  rw [getD_map_zipIdx _ _ i [] hi']
+  simp only
+  rw [getD_map_zipIdx _ _ j [] hj', getD_eq_getElem' (symCentre c) i [] hi',
+    getD_eq_getElem' _ j [] hj']
+
+/-- entries of the centre-updated array -/
+theorem get3_symCentre {c : List (List (List Nat))} {nc h : Nat} (hc : Shape3 c nc (h + 1)) {i j : Nat}
+    (hi : i < nc) (hj : j < nc) (k : Nat) :
+    get3 (symCentre c) i j k = if k = 0 then max (get3 c i j 0) (get3 c j i 0) else get3 c i j k := by
+  rw [get3_eq_cell, cell_symCentre hc hi hj, get3_eq_cell c i j k, get3_eq_cell c i j 0]
+  have hlen := shape_cell_len hc hi hj
+  cases hv : cell c i j with
+  | nil => rw [hv] at hlen; simp at hlen
+  | cons v0 rest =>
+    cases k with
+    | zero => simp [centreCell]
+    | succ k => simp [centreCell]
 
 theorem sym_shape (c : List (List (List Nat))) (nc h : Nat) (hc : Shape3 c nc (h + 1)) :
     Shape3 (symmetrize c) nc (2 * h + 1) := by
-  sorry
+  have hc' := symCentre_shape hc
+  rw [symmetrize_eq]
+  refine ⟨by rw [List.length_map, List.length_zipIdx]; exact hc'.1, ?_⟩
+  intro row hrow
+  obtain ⟨p, hp, rfl⟩ := List.mem_map.mp hrow
+  have hp0 := mem_zipIdx_fst hp
+  have hp1 := hc'.2 _ hp0.1
+  refine ⟨by rw [List.length_map, List.length_zipIdx]; exact hp1.1, ?_⟩
+  intro v hv
+  obtain ⟨q, hq, rfl⟩ := List.mem_map.mp hv
+  have hq0 := mem_zipIdx_fst hq
+  have hi : p.2 < nc := by rw [← hc'.1]; exact hp0.2.1
+  have hj : q.2 < nc := by rw [← hp1.1]; exact hq0.2.1
+  rw [List.length_append, List.length_reverse, List.length_tail, shape_cell_len hc' hj hi,
+    hp1.2 _ hq0.1]
+  omega
+
+theorem get3_symmetrize {c : List (List (List Nat))} {nc h : Nat} (hc : Shape3 c nc (h + 1)) {i j : Nat}
+    (hi : i < nc) (hj : j < nc) (k : Nat) :
+    get3 (symmetrize c) i j k =
+      if k < h then get3 (symCentre c) j i (h - k) else get3 (symCentre c) i j (k - h) := by
+  have hc' := symCentre_shape hc
+  have hl1 := shape_cell_len hc' hj hi
+  rw [get3_eq_cell, cell_symmetrize hc hi hj, get3_eq_cell, get3_eq_cell]
+  rw [List.getD_eq_getElem?_getD, List.getD_eq_getElem?_getD, List.getD_eq_getElem?_getD,
+    List.getElem?_append]
+  have hlt : (cell (symCentre c) j i).tail.reverse.length = h := by
+    rw [List.length_reverse, List.length_tail, hl1]; omega
+  rw [hlt]
+  by_cases hk : k < h
+  · rw [if_pos hk, if_pos hk, List.getElem?_reverse (by rw [List.length_tail, hl1]; omega),
+      List.getElem?_tail, List.length_tail, hl1]
+    have : h + 1 - 1 - 1 - k + 1 = h - k := by omega
+    rw [this]
+  · rw [if_neg hk, if_neg hk]
 
 theorem sym_positive (c : List (List (List Nat))) (nc h : Nat) (hc : Shape3 c nc (h + 1))
     (i j k : Nat) (hi : i < nc) (hj : j < nc) (hk1 : 1 ≤ k) (hk : k ≤ h) :
     get3 (symmetrize c) i j (h + k) = get3 c i j k := by
-  sorry
+  have _ := hk
+  rw [get3_symmetrize hc hi hj, if_neg (by omega), get3_symCentre hc hi hj, if_neg (by omega)]
+  congr 1; omega
 
 theorem sym_centre (c : List (List (List Nat))) (nc h : Nat) (hc : Shape3 c nc (h + 1))
     (i j : Nat) (hi : i < nc) (hj : j < nc) :
     get3 (symmetrize c) i j h = max (get3 c i j 0) (get3 c j i 0) := by
-  sorry
+  rw [get3_symmetrize hc hi hj, if_neg (by omega), get3_symCentre hc hi hj, if_pos (by omega)]
 
 theorem sym_reflect (c : List (List (List Nat))) (nc h : Nat) (hc : Shape3 c nc (h + 1))
     (i j k : Nat) (hi : i < nc) (hj : j < nc) (hk : k ≤ h) :
     get3 (symmetrize c) i j (h + k) = get3 (symmetrize c) j i (h - k) := by
-  sorry
-
-theorem firing_outer (sc : List Int) (ids : List Nat) (hdom : InDom sc ids) :
-    firingCounts sc ids = some (specFiring sc ids) := by
-  sorry
+  rw [get3_symmetrize hc hi hj, if_neg (by omega), get3_symmetrize hc hj hi]
+  by_cases hk0 : k = 0
+  · subst hk0
+    rw [if_neg (by omega), Nat.add_zero, Nat.sub_zero, Nat.sub_self,
+      get3_symCentre hc hi hj, get3_symCentre hc hj hi, if_pos rfl, if_pos rfl, Nat.max_comm]
+  · rw [if_pos (by omega)]
+    congr 1; omega
 
 end PhyVerif.C15.Lemmas
